@@ -453,7 +453,7 @@ class Simulation:
         self._summary = self._build_summary()
         return self._summary
 
-    def _execute_until(self, end_time_ns: int) -> None:
+    def _execute_until(self, end_time_ns: int, *, strict: bool = False) -> None:
         """Run the pop-invoke-push loop until time exceeds end_time_ns.
 
         This is the extracted inner loop shared by ``_run_loop_fast`` (normal
@@ -464,12 +464,19 @@ class Simulation:
         When ``_event_router`` is set, produced events are passed through the
         router which separates local events (returned to push) from
         cross-partition events (appended to an outbox as a side-effect).
+
+        With ``strict=True`` (windowed execution) the loop peeks before it
+        pops and leaves every event scheduled after ``end_time_ns`` in the
+        heap, so the clock never passes the window end.  A partition that
+        ran ahead of the barrier would discard cross-partition events that
+        arrive in the skipped interval as "time travel".
         """
         heap = self._event_heap
         clock = self._clock
         heap_pop = heap.pop
         heap_push = heap.push
         heap_has_events = heap.has_events
+        heap_peek = heap.peek
         clock_update = clock.update
         current_time = self._current_time
         events_processed = self._events_processed
@@ -477,6 +484,9 @@ class Simulation:
         router = self._event_router
 
         while heap_has_events() and current_time.nanoseconds <= end_time_ns:
+            if strict and heap_peek().time.nanoseconds > end_time_ns:
+                break
+
             event = heap_pop()
 
             if event._cancelled:
@@ -545,7 +555,7 @@ class Simulation:
 
         with _active_sim_context(self._event_heap, self._clock):
             with _active_debugger_context(None):
-                self._execute_until(window_end.nanoseconds)
+                self._execute_until(window_end.nanoseconds, strict=True)
 
     def _build_summary(self) -> SimulationSummary:
         """Build a SimulationSummary from current state."""
